@@ -109,7 +109,7 @@ def no_backslash(k, *cps):
        covers=['latex_renderer.py:LaTeXRenderer.render_raw_text'])
 def l1_raw_text(c1: int, c2: int, c3: int, c4: int) -> bool:
     """
-    pre: all_ok(cp_ok, P('k'), c1, c2, c3, c4) and first_cell(c1)
+    pre: first_cell(c1) and all_ok(cp_ok, P('k'), c1, c2, c3, c4)
     pre: no_backslash(P('k'), c1, c2, c3, c4)
     post: _
     """
